@@ -231,12 +231,13 @@ def collect(tier, sd, out, want_hist=True):
     return cases, behs, results
 
 
-def writable_check(out, behs, sd, limit):
+def writable_check(out, behs, sd, limit, always=()):
     """C09's last sentence: every object a history produces can be written, declared counts match, reads back.
-    Called from atomsops for C09 with the behaviours it generated."""
+    Called from atomsops for C09 with the behaviours it generated; `always`: histories that are all checked (the long
+    random walks, whose objects accumulate ten and more types), the others are sampled up to `limit`."""
     behs = list(behs)
     random.Random(sd).shuffle(behs)
-    behs = [b for b in behs if b[-1]["op"] not in ("Subset", "Copy", "Replicate")][:limit]
+    behs = list(always) + [b for b in behs if b[-1]["op"] not in ("Subset", "Copy", "Replicate")][:limit]
     bidx = list(enumerate(behs))
     tasks = [(bidx[k::14], sd) for k in range(14)]
     with multiprocessing.get_context("fork").Pool(14) as pool:
